@@ -339,8 +339,20 @@ pub fn run(ctx: &mut Ctx) {
             }
         }
         let seed = rng.next();
-        ctx.emit(exec_mat(ops, seed));
+        let c = exec_mat(ops.clone(), seed);
+        if ctx.param("print_replay", 0) == 2 || ctx.param("print_replay", 0) == 1 && c.tags.iter().any(|t| t.starts_with("viol:")) {
+            eprintln!("REPLAY mat seed={seed};main;{}", enc_ops(&ops));
+        }
+        ctx.emit(c);
     }
+}
+
+/// `mat seed=<n>;main;<ops>`: re-runs one case (the printed case line is the state dump with its queries)
+pub fn replay(body: &str) -> Case {
+    let (seed, rest) = body.split_once(';').unwrap_or(("seed=0", ""));
+    let seed: u64 = seed.trim_start_matches("seed=").parse().unwrap_or(0);
+    let rest = rest.strip_prefix("main;").unwrap_or(rest);
+    exec_mat(parse_ops(rest), seed)
 }
 
 // ====================================================================== C04: planted instances
